@@ -12,7 +12,7 @@ use crate::explore::Report;
 use crate::Args;
 
 pub fn names() -> Vec<&'static str> {
-    vec!["keys", "reuse", "modes", "batch", "removal", "disable", "stream-seq", "limit", "manyready", "wait-real", "reentrancy", "epoll", "exec-seq", "postaction", "lifecycle", "faults", "idle", "composite", "signals", "transient", "crash-probe", "async-io", "pa-table", "timers", "wait", "ping-seq", "chan-seq", "ping-mt", "chan-mt", "sync-mt", "exec-mt", "wakeup", "run", "block_on"]
+    vec!["keys", "reuse", "modes", "batch", "removal", "disable", "stream-seq", "limit", "manyready", "wait-real", "reentrancy", "epoll", "exec-seq", "postaction", "lifecycle", "faults", "idle", "composite", "signals", "transient", "crash-probe", "async-io", "pa-table", "timers", "wait", "ping-seq", "chan-seq", "ping-mt", "chan-mt", "sync-mt", "exec-mt", "wakeup", "run", "block_on", "signal-mt"]
 }
 
 pub fn dispatch(args: &Args) -> Option<Report> {
